@@ -62,7 +62,12 @@ func (w *world) rndChanDef() J {
 		if g.R.Intn(25) == 0 {
 			sid = 0 // the zero id is an ordinary id
 		}
-		st[i] = J{"sid": S(sid), "agg": S(1 + g.R.Intn(3))}
+		agg := uint32(1 + g.R.Intn(3))
+		if g.R.Intn(40) == 0 {
+			// an aggregator value nobody implements passes validation (only 0 is refused): the round must fail cleanly
+			agg = []uint32{4, 5, 99, ^uint32(0)}[g.R.Intn(4)]
+		}
+		st[i] = J{"sid": S(sid), "agg": S(agg)}
 	}
 	opts := ""
 	if g.R.Intn(2) == 0 {
